@@ -11,7 +11,7 @@
 //!   mset.o_mut SEED leaf*         mutated honest proofs (structural + byte level, incl. root-preserving rewrites)
 //!                                 never validate against the root with the wrong bit
 //!   mset.o_verdict PROOF ITEM leaf*  one candidate proof: Ok(b) against the reference root implies b == membership
-//!   mset.o_exh DEPTH leaf*        all proof trees up to DEPTH over the pool (leaves, truncated sub-trie hashes)
+//!   mset.o_exh DEPTH [SHARD NSHARDS] leaf*   all proof trees up to DEPTH over the pool (leaves, truncated sub-trie hashes)
 //!                                 against the roots of all subsets of the pool and all pool items
 use chia_consensus::merkle_set::compute_merkle_set_root;
 use chia_consensus::merkle_tree::{validate_merkle_proof, MerkleSet};
@@ -391,8 +391,15 @@ fn o_proofs(seed: u64, ls: &[L]) -> String {
             }
         }
         // the same proof presented for other items must never give a wrong verdict
+        // (all items for small sets; a seeded sample of 64 for large ones: the check is quadratic)
         let mut acc = (0, 0);
-        if let Err(e) = check_candidate(&proof, &items, &set, &root, &mut acc) {
+        let r = if items.len() <= 700 {
+            check_candidate(&proof, &items, &set, &root, &mut acc)
+        } else {
+            let sample: Vec<L> = (0..64).map(|_| items[rng.below(items.len())]).collect();
+            check_candidate(&proof, &sample, &set, &root, &mut acc)
+        };
+        if let Err(e) = r {
             return e;
         }
         n += 1;
@@ -496,11 +503,15 @@ fn trie_hashes(set: &[L], depth: usize, out: &mut BTreeSet<L>) {
     trie_hashes(&set[split..], depth + 1, out);
 }
 
-fn o_exh(depth: u64, pool: &[L]) -> String {
+/// all proof trees of nesting <= depth over the atoms (Empty, pool leaves, truncated sub-trie hashes, a junk
+/// truncated hash).  The last level (pairs of trees of nesting < depth) is never materialised: pair number k is
+/// handled by the line with k % nshards == shard, so the enumeration can be spread over many lines.
+/// Answers UNCHECKED (not a failure) if the share of this line exceeds the work limit.
+fn o_exh(depth: u64, shard: u64, nshards: u64, pool: &[L]) -> String {
     let pool: Vec<L> = pool.iter().copied().collect::<BTreeSet<L>>().into_iter().collect();
     let n = pool.len();
-    if n > 5 {
-        return "FAIL pool too large".into();
+    if n > 5 || nshards == 0 || shard >= nshards {
+        return "FAIL bad o_exh arguments".into();
     }
     // roots of all subsets
     let mut subsets: Vec<(BTreeSet<L>, L)> = Vec::new();
@@ -521,39 +532,78 @@ fn o_exh(depth: u64, pool: &[L]) -> String {
     atoms.extend(pool.iter().map(|l| PT::T(*l)));
     atoms.extend(trunc.iter().map(|h| PT::X(*h)));
     atoms.push(PT::X(BLANK));
-    let mut level: Vec<PT> = atoms.clone();
-    for _ in 0..depth {
-        let mut next = atoms.clone();
+    // serialised trees of nesting < depth
+    let mut level: Vec<Vec<u8>> = atoms
+        .iter()
+        .map(|t| {
+            let mut b = Vec::new();
+            ser(t, &mut b);
+            b
+        })
+        .collect();
+    let atom_ser = level.clone();
+    for _ in 1..depth {
+        if level.len() > 4000 {
+            return format!("UNCHECKED enumeration too large (inner level {})", level.len());
+        }
+        let mut next = atom_ser.clone();
         for a in &level {
             for b in &level {
-                next.push(PT::M(Box::new(a.clone()), Box::new(b.clone())));
+                let mut m = Vec::with_capacity(1 + a.len() + b.len());
+                m.push(2);
+                m.extend_from_slice(a);
+                m.extend_from_slice(b);
+                next.push(m);
             }
         }
         level = next;
-        if level.len() > 3_000_000 {
-            return "FAIL enumeration too large".into();
-        }
+    }
+    let pairs = if depth == 0 { 0 } else { (level.len() as u64) * (level.len() as u64) };
+    if pairs / nshards > 12_000_000 {
+        return format!("UNCHECKED share too large ({} pairs over {} shards)", pairs, nshards);
     }
     let items: Vec<L> = pool.clone();
     let mut acc = (0u64, 0u64);
     let mut parsed = 0u64;
     let mut matched = 0u64;
-    for t in &level {
-        let mut b = Vec::new();
-        ser(t, &mut b);
-        let Ok(tree) = MerkleSet::from_proof(&b) else { continue };
+    let mut trees = 0u64;
+    let mut one = |b: &[u8]| -> Result<(), String> {
+        trees += 1;
+        let Ok(tree) = MerkleSet::from_proof(b) else { return Ok(()) };
         parsed += 1;
         let r = tree.get_root();
         if let Some(ix) = by_root.get(&r) {
             matched += 1;
             for i in ix {
-                if let Err(e) = check_candidate(&b, &items, &subsets[*i].0, &r, &mut acc) {
-                    return e;
-                }
+                check_candidate(b, &items, &subsets[*i].0, &r, &mut acc)?;
+            }
+        }
+        Ok(())
+    };
+    if shard == 0 {
+        for a in &atom_ser {
+            if let Err(e) = one(a) {
+                return e;
             }
         }
     }
-    format!("OK trees={} parsed={} root_matches={} validations={} accepted={}", level.len(), parsed, matched, acc.0, acc.1)
+    if depth > 0 {
+        let len = level.len() as u64;
+        let mut buf: Vec<u8> = Vec::new();
+        let mut k = shard;
+        while k < pairs {
+            let (ia, ib) = ((k / len) as usize, (k % len) as usize);
+            buf.clear();
+            buf.push(2);
+            buf.extend_from_slice(&level[ia]);
+            buf.extend_from_slice(&level[ib]);
+            if let Err(e) = one(&buf) {
+                return e;
+            }
+            k += nshards;
+        }
+    }
+    format!("OK trees={} parsed={} root_matches={} validations={} accepted={}", trees, parsed, matched, acc.0, acc.1)
 }
 
 fn run(name: &str, args: &[String]) -> Option<String> {
@@ -602,7 +652,14 @@ fn run(name: &str, args: &[String]) -> Option<String> {
         "mset.o_root" => Some(o_root(dec(&args[0]), &leafs(&args[1..]))),
         "mset.o_proofs" => Some(o_proofs(dec(&args[0]), &leafs(&args[1..]))),
         "mset.o_mut" => Some(o_mut(dec(&args[0]), &leafs(&args[1..]))),
-        "mset.o_exh" => Some(o_exh(dec(&args[0]), &leafs(&args[1..]))),
+        "mset.o_exh" => {
+            // DEPTH leaf*   or   DEPTH SHARD NSHARDS leaf*  (leaves are 64 hex digits, shard numbers are short)
+            if args.len() >= 3 && args[1].len() < 64 && args[2].len() < 64 {
+                Some(o_exh(dec(&args[0]), dec(&args[1]), dec(&args[2]), &leafs(&args[3..])))
+            } else {
+                Some(o_exh(dec(&args[0]), 0, 1, &leafs(&args[1..])))
+            }
+        }
         "mset.o_verdict" => {
             // PROOF ITEM leaf* : one candidate proof against the (reference) root of the set
             let proof = hx(&args[0]);
